@@ -54,10 +54,18 @@ class History:
         import physt
 
         rng = self.rng
-        kind = rng.choice(["1d_static", "1d_static", "1d_adaptive", "1d_adaptive", "2d_static", "2d_adaptive", "3d_static", "1d_gapped", "1d_fixed", "2d_fixed"])
+        kind = rng.choice(["1d_static", "1d_static", "1d_adaptive", "1d_adaptive", "2d_static", "2d_adaptive", "3d_static", "1d_gapped", "1d_fixed", "2d_fixed", "1d_huge"])
         n = rng.randint(0, 25)
         try:
-            if kind == "1d_static" or kind == "1d_gapped":
+            if kind == "1d_huge":
+                # bins wide enough for values whose square is not a finite double: statistics may give up (NaN), operations may not
+                e = [-1e200, -1.0, 0.0, 2.5, 1e200]
+                data = gen.data_for_bins(rng, gen.pairs_from_edges(e), n, nan_ok=False)
+                with warnings.catch_warnings():
+                    warnings.simplefilter("ignore")
+                    with np.errstate(all="ignore"):
+                        h = physt.h1(np.asarray(data, dtype=float), np.array(e), name="huge")
+            elif kind == "1d_static" or kind == "1d_gapped":
                 if kind == "1d_gapped":
                     pairs = gen.gapped_pairs(rng, rng.randint(2, 6))
                     bins = np.array(pairs)
